@@ -29,6 +29,15 @@ USED_FAT = 0xC1
 USED_DIR = 0x41
 
 
+def sym_fat_entry(ctx, name):
+    """an arbitrary allocation-table entry: x in 0..67 = link to granule x, 68..77 = last-granule marker $C0+n, 78 = free.
+    -> (byte value, used flag 0/1), both branch-free terms of one symbolic integer"""
+    x = ctx.int(name, 0, 78)
+    isfree = (x >= 78) * 1
+    byte = x + (x >= 68) * (0xC0 - 68) + isfree * (0xFF - 0xC0 - 10)
+    return byte, 1 - isfree
+
+
 def uniq_order(order):
     out = []
     for g in order:
@@ -51,22 +60,23 @@ def make_step(sid, length, order_name, orders, first_idx, second_idx=None, kind=
         install_m7()
         buf = OD.blank_image()
         gflag = {}
+        gbyte = {}
         for pos, g in enumerate(order_list):
             if pos < first_idx:
-                used = 1
+                used, byte = 1, [USED_FAT, 0x00, 0x05, 0xC9][pos % 4]     # concrete used entries of every kind
             elif pos == first_idx:
-                used = 0
+                used, byte = 0, 0xFF
             elif second_idx is not None and pos < second_idx:
-                used = 1
+                used, byte = 1, [0xC3, 0x00, 0x21][pos % 3]
             elif second_idx is not None and pos == second_idx:
-                used = 0
+                used, byte = 0, 0xFF
             else:
-                used = ctx.int("g%d" % g, 0, 1)
-            gflag[g] = used
+                byte, used = sym_fat_entry(ctx, "g%d" % g)
+            gflag[g], gbyte[g] = used, byte
         for g in range(68):
             if g not in gflag:
-                gflag[g] = 1          # a granule missing from the fill order can never be allocated: count it as used
-            buf[OD.FAT + g] = 0xFF - gflag[g] * (0xFF - USED_FAT)
+                gflag[g], gbyte[g] = 1, USED_FAT     # a granule missing from the fill order can never be allocated: used
+            buf[OD.FAT + g] = gbyte[g]
         sflag = []
         for s in range(72):
             if slot_idx is not None and s < slot_idx:
@@ -186,7 +196,7 @@ def obligations(tier, seed):
         idxs = range(68) if (full or oname == "default") else sorted(rnd.sample(range(68), 12) + [0, 67])
         for i in sorted(set(idxs)):
             obs.append(make_step("1g:%s:%d" % (oname, i), 10, oname, orders, i, slot_idx=rnd.randrange(72)))
-        for i in (range(0, 68, 1) if full else sorted(set(rnd.sample(range(67), 10) + [0, 66, 67]))):
+        for i in (range(0, 68, 1) if (full or oname == "default") else sorted(set(rnd.sample(range(67), 10) + [0, 66, 67]))):
             obs.append(make_step("2g:%s:%d" % (oname, i), 2300, oname, orders, i, slot_idx=rnd.randrange(72)))
         for _ in range(6 if not full else 40):
             i = rnd.randrange(0, 66)
@@ -195,6 +205,12 @@ def obligations(tier, seed):
         i = rnd.randrange(0, 60)
         obs.append(make_step("exact2:%s:%d" % (oname, i), 2294, oname, orders, i))
         obs.append(make_step("exact-basic:%s:%d" % (oname, i), 2301, oname, orders, i, kind="basic"))
+        obs.append(make_step("basic-over:%s:%d" % (oname, i), 2302, oname, orders, i, kind="basic"))
+        obs.append(make_step("ascii-edge:%s:%d" % (oname, i), 2305, oname, orders, i, kind="ascii"))
+        if oname == "default":
+            # the default fill order lists granules 40-43 twice: partitions that start right at the duplicated entries
+            for (a, b) in [(14, 15), (18, 19), (14, 18), (15, 19)]:
+                obs.append(make_step("3g:%s:dup%d-%d" % (oname, a, b), 4700, oname, orders, a, b, slot_idx=rnd.randrange(72)))
         obs.append(make_step("4g:%s:%d-%d" % (oname, 58, 60), 7000, oname, orders, 58, 60))   # 7 symbolic granules left
         obs.append(make_step("ascii1:%s:%d" % (oname, i), 100, oname, orders, i, kind="ascii"))
     for s in range(72):
